@@ -124,7 +124,18 @@ pub fn facts(v: Proto, datagram: &[u8], request: &[u8], pinned: &[u8]) -> Value 
 
 // ---------------------------------------------------------------------------- running the client
 
-pub struct ClientRun { pub exit: i32, pub stdout: String, pub stderr: String, pub requests: Vec<Vec<u8>> }
+pub struct ClientRun { pub exit: i32, pub stdout: String, pub stderr: String, pub requests: Vec<Vec<u8>>,
+                       /// how the output was asked for (0 JSON, 1 plain + verbose, 2 JSON + verbose + dump + request/response files) and,
+                       /// for mode 2, whether the files hold exactly the datagrams exchanged (None = not asked for)
+                       pub out_mode: usize, pub files_ok: Option<bool> }
+
+/// Output views of the client (the property speaks of both "verified=Yes" and "\"verified\": true"): every run rotates through
+///   0  `-j`                 one JSON object per response on stdout
+///   1  `-v` (no `-j`)       the bare time on stdout, "Received time from server: midpoint=.., radius=.., verified=Yes|No" on stderr
+///   2  `-j -v -d -o F -O G` all views at once, plus the text dump of the messages and the request / response files
+/// What is printed, and whether anything is printed, must be the same in every view.
+pub static CLIENT_OUT_RUNS: std::sync::atomic::AtomicUsize = std::sync::atomic::AtomicUsize::new(0);
+pub static CLIENT_OUT_DIR: std::sync::Mutex<String> = std::sync::Mutex::new(String::new());
 
 /// Run the real client; `respond(k, request) -> Option<datagram>` is called for the k-th request received.
 /// How the next client processes are run (the printed instant must not depend on it):
@@ -144,7 +155,15 @@ pub fn run_client(client_bin: &str, v: Proto, key: Option<String>, nreq: usize, 
     let mode = CLIENT_ENV_MODE.load(std::sync::atomic::Ordering::Relaxed);
     let mut cmd = Command::new(client_bin);
     cmd.arg(if mode == 3 { "127.0.0.2" } else { "127.0.0.1" }).arg(port.to_string()).arg("-p").arg(if v == Proto::Google { "0" } else { "13" })
-        .arg("-n").arg(nreq.to_string()).arg("-t").arg("2").arg("-j").arg("-f").arg("%s.%f");
+        .arg("-n").arg(nreq.to_string()).arg("-t").arg("2").arg("-f").arg("%s.%f");
+    let out_dir = CLIENT_OUT_DIR.lock().map(|g| g.clone()).unwrap_or_default();
+    let out_mode = if mode == 4 { 0 } else { let k = CLIENT_OUT_RUNS.fetch_add(1, std::sync::atomic::Ordering::Relaxed) % 3; if k == 2 && out_dir.is_empty() { 0 } else { k } };
+    let (reqf, respf) = (format!("{}/client_requests.bin", out_dir), format!("{}/client_responses.bin", out_dir));
+    match out_mode {
+        0 => { cmd.arg("-j"); }
+        1 => { cmd.arg("-v"); }
+        _ => { let _ = std::fs::remove_file(&reqf); let _ = std::fs::remove_file(&respf); cmd.arg("-j").arg("-v").arg("-d").arg("-o").arg(&reqf).arg("-O").arg(&respf); }
+    }
     if mode == 4 {
         // local wall-clock output in a daylight-saving zone (the offset in force AT THE MIDPOINT applies, not today's)
         let mut c2 = Command::new(client_bin);
@@ -177,15 +196,51 @@ pub fn run_client(client_bin: &str, v: Proto, key: Option<String>, nreq: usize, 
         }
     }
     // the client reads the replies in the order it created its sockets = the order the requests arrived
+    let mut sent: Vec<u8> = vec![];
+    let mut all_answered = true;
     for (k, from) in peers.iter().enumerate() {
-        if let Some(d) = respond(k, &requests[k]) { let _ = sock.send_to(&d, from); }
+        if let Some(d) = respond(k, &requests[k]) { let _ = sock.send_to(&d, from); if all_answered { sent.extend_from_slice(&d); } } else { all_answered = false; }
     }
     let mut stdout = String::new();
     let mut stderr = String::new();
-    let status = child.wait().expect("wait client");
+    // (the dump view prints much: drain the pipes before waiting)
     if let Some(mut o) = child.stdout.take() { let _ = o.read_to_string(&mut stdout); }
     if let Some(mut e) = child.stderr.take() { let _ = e.read_to_string(&mut stderr); }
-    ClientRun { exit: status.code().unwrap_or(-1), stdout, stderr, requests }
+    let status = child.wait().expect("wait client");
+    let files_ok = if out_mode == 2 && requests.len() == nreq && status.code() == Some(0) {
+        // a run that ended well wrote every request it sent and every response it processed, in order, nothing else
+        let rq = std::fs::read(&reqf).unwrap_or_default();
+        let rs = std::fs::read(&respf).unwrap_or_default();
+        Some(rq == requests.concat() && rs == sent)
+    } else { None };
+    ClientRun { exit: status.code().unwrap_or(-1), stdout, stderr, requests, out_mode, files_ok }
+}
+
+/// the verbose view: one line per processed response on stderr -> (seconds, nanoseconds, verified)
+pub fn verbose_times(stderr: &str) -> Vec<(u64, u32, bool)> {
+    let mut out = vec![];
+    for line in stderr.lines() {
+        let line = line.trim();
+        let rest = match line.strip_prefix("Received time from server: midpoint=\"") { Some(r) => r, None => continue };
+        let (m, tail) = match rest.split_once('"') { Some(x) => x, None => continue };
+        let mut it = m.split('.');
+        let s = it.next().and_then(|x| x.parse::<u64>().ok());
+        let ns = it.next().and_then(|x| x.parse::<u32>().ok());
+        let ver = if tail.contains("verified=Yes") { Some(true) } else if tail.contains("verified=No") { Some(false) } else { None };
+        if let (Some(s), Some(ns), Some(v)) = (s, ns, ver) { out.push((s, ns, v)); } else { out.push((u64::MAX, 0, ver.unwrap_or(true))); }
+    }
+    out
+}
+
+/// the plain view: the bare time, one line per processed response on stdout
+pub fn plain_times(stdout: &str) -> Vec<(u64, u32)> {
+    // (with a pinned key the client also reports "Valid signature on DELE tag" / "... SREP tag" on stdout)
+    stdout.lines().map(|l| l.trim()).filter(|l| !l.is_empty() && !l.starts_with("Valid signature on ")).map(|l| {
+        let mut it = l.split('.');
+        let s = it.next().and_then(|x| x.parse::<u64>().ok());
+        let ns = it.next().and_then(|x| x.parse::<u32>().ok());
+        match (s, ns, it.next()) { (Some(s), Some(ns), None) => (s, ns), _ => (u64::MAX, 0) }
+    }).collect()
 }
 
 /// parse the client's JSON lines: (midpoint seconds, nanoseconds, verified)
@@ -312,20 +367,32 @@ fn emit_run_text(out: &mut dyn Write, kind: &str, v: Proto, keyopt: &str, run: &
     writeln!(out, "{}", json!({"ev": "run", "kind": kind, "v": v.tag(), "key": keyopt, "nreq": run.requests.len(), "served": served, "exit": run.exit,
         "printed": printed.len(), "verified": verified, "times_ok": times_ok, "panicked": run.stderr.contains("panicked"), "extra": extra,
         "reqf": run.requests.iter().map(|r| proto::request_features(r, &REQ_SRV.with(|x| x.borrow().clone()))).collect::<Vec<Value>>(),
-        "printed_text": printed.iter().map(|p| p.0.clone()).collect::<Vec<_>>(), "expected_text": want})).unwrap();
+        "printed_text": printed.iter().map(|p| p.0.clone()).collect::<Vec<_>>(), "expected_text": want,
+        "out_mode": 0, "vprinted": 0, "vverified": Vec::<bool>::new(), "vtimes_ok": true, "files": "na"})).unwrap();
 }
 
 fn emit_run(out: &mut dyn Write, kind: &str, v: Proto, keyopt: &str, run: &ClientRun, served: &[Value], expect_times: &[(u64, u32)], extra: Value) {
-    let printed = printed_times(&run.stdout);
-    let times_ok = printed.len() <= expect_times.len() && printed.iter().zip(expect_times.iter()).all(|(p, e)| p.0 == e.0 && p.1 == e.1);
-    let verified: Vec<bool> = printed.iter().map(|p| p.2).collect();
+    // the primary view of this run's output mode, and the verbose view next to it when there is one
+    let (nprinted, times_ok, verified): (usize, bool, Vec<bool>) = if run.out_mode == 1 {
+        let pl = plain_times(&run.stdout);
+        (pl.len(), pl.len() <= expect_times.len() && pl.iter().zip(expect_times.iter()).all(|(p, e)| p.0 == e.0 && p.1 == e.1), vec![])
+    } else {
+        let pr = printed_times(&run.stdout);
+        (pr.len(), pr.len() <= expect_times.len() && pr.iter().zip(expect_times.iter()).all(|(p, e)| p.0 == e.0 && p.1 == e.1), pr.iter().map(|p| p.2).collect())
+    };
+    let vb = if run.out_mode == 0 { vec![] } else { verbose_times(&run.stderr) };
+    let vtimes_ok = vb.len() <= expect_times.len() && vb.iter().zip(expect_times.iter()).all(|(p, e)| p.0 == e.0 && p.1 == e.1);
+    let vverified: Vec<bool> = vb.iter().map(|p| p.2).collect();
     let panicked = run.stderr.contains("panicked");
     let reqf: Vec<Value> = run.requests.iter().map(|r| proto::request_features(r, &REQ_SRV.with(|x| x.borrow().clone()))).collect();
     writeln!(out, "{}", json!({"ev": "run", "kind": kind, "v": v.tag(), "key": keyopt, "nreq": run.requests.len(), "served": served, "exit": run.exit,
-        "printed": printed.len(), "verified": verified, "times_ok": times_ok, "panicked": panicked, "extra": extra, "reqf": reqf})).unwrap();
+        "printed": nprinted, "verified": verified, "times_ok": times_ok, "panicked": panicked, "extra": extra, "reqf": reqf,
+        "out_mode": run.out_mode, "vprinted": vb.len(), "vverified": vverified, "vtimes_ok": vtimes_ok,
+        "files": match run.files_ok { None => "na", Some(true) => "ok", Some(false) => "differ" }})).unwrap();
 }
 
 pub fn replay(path: &str, out_path: &str, client_bin: &str, seed: u64, tier: &str) {
+    if let Ok(mut g) = CLIENT_OUT_DIR.lock() { *g = std::path::Path::new(out_path).parent().map(|p| p.to_string_lossy().to_string()).unwrap_or_default(); }
     let mut rng = Rng::new(seed ^ 0xC01);
     let keys = Keys::new(&mut rng);
     let pinned = interp::pk_of_seed(&keys.ltk);
@@ -411,6 +478,7 @@ fn regions(v: Proto, d: &[u8]) -> Vec<(String, usize, usize)> {
 }
 
 pub fn record(out_path: &str, client_bin: &str, seed: u64, tier: &str) {
+    if let Ok(mut g) = CLIENT_OUT_DIR.lock() { *g = std::path::Path::new(out_path).parent().map(|p| p.to_string_lossy().to_string()).unwrap_or_default(); }
     let mut rng = Rng::new(seed ^ 0xC03);
     let keys = Keys::new(&mut rng);
     let pinned = interp::pk_of_seed(&keys.ltk);
@@ -519,6 +587,27 @@ pub fn record(out_path: &str, client_bin: &str, seed: u64, tier: &str) {
                     emit_run(&mut out, "byte-forgery", v, keyopt, &run, &served, &[expected_print(v, midp)], json!({"region": name, "offset": off}));
                     runs += 1;
                 }
+            }
+        }
+    }
+    // (2b) C01: a component of ANOTHER LENGTH that begins (or ends) with the genuine bytes: a 68- or 128-byte SIG whose first
+    //      64 bytes are the genuine signature is not a signature; a PATH with four more bytes is not a path
+    for v in [Proto::Google, Proto::Ietf] {
+        for keyopt in ["hex", "none"] {
+            for (what, delta) in [("sig", 4i64), ("sig", 64), ("sig", -4), ("cert_sig", 4), ("cert_sig", -4), ("cert_sig", 64), ("path", 4), ("path", -4)] {
+                let midp = now_midp(v);
+                let mut served = vec![];
+                let mut sub = Rng::new(rng.next_u64());
+                let run = run_client(client_bin, v, key_arg(&keys, keyopt), 1, &[], &sock, &mut |_, rq| {
+                    let mut p = honest_parts(v, rq, &keys, 1, 4, midp, &mut sub);
+                    let field: &mut Vec<u8> = match what { "sig" => &mut p.sig, "cert_sig" => &mut p.cert_sig, _ => &mut p.path };
+                    if delta > 0 { field.extend(std::iter::repeat(0u8).take(delta as usize)); } else { let n = field.len().saturating_sub((-delta) as usize); field.truncate(n); }
+                    let d = assemble(&p);
+                    let mut f = facts(v, &d, rq, &pinned); f["honest"] = json!(false); served.push(f);
+                    Some(d)
+                });
+                emit_run(&mut out, "length-forgery", v, keyopt, &run, &served, &[expected_print(v, midp)], json!({"component": what, "delta": delta}));
+                runs += 1;
             }
         }
     }
@@ -684,5 +773,5 @@ fn run_client_relay(client_bin: &str, v: Proto, key: Option<String>, nreq: usize
     if let Some(mut o) = child.stdout.take() { let _ = o.read_to_string(&mut stdout); }
     if let Some(mut e) = child.stderr.take() { let _ = e.read_to_string(&mut stderr); }
     let status = child.wait().expect("wait client");
-    ClientRun { exit: status.code().unwrap_or(-1), stdout, stderr, requests }
+    ClientRun { exit: status.code().unwrap_or(-1), stdout, stderr, requests, out_mode: 0, files_ok: None }
 }
